@@ -20,6 +20,7 @@ RULE = ("boundary sweep: limit in {0,1,2,10,1023,1024,1025} x pre-existing activ
         "are counted and reach the file with the next record - shown = disk at its consultation. "
         "non-trivial = size trigger with at least one append; "
         "distinct = distinct case line")
+rc.MACHINE_FOR_ENC_FAIL[0] = True      # Run/C06.v runs op 11 on the machine of Model/RollingEnc.v
 ASSUMPTIONS = list(rc.COMMON_ASSUMPTIONS)
 EXHAUSTIVE = {"quick": False, "thorough": False}
 
